@@ -9,7 +9,8 @@ RULE = (
     "alternating two routes: tracks.undo() -> canonical state == pre, tracks.redo() -> == post; or "
     "action.inverse() -> == pre, .inverse() of that -> == post. Primitive actions (AddNode on "
     "background, DeleteNode without incident edges, AddEdge, DeleteEdge, UpdateNodeSeg add/remove, "
-    "UpdateNodeAttrs, UpdateTrackIDs with an id not found downstream) are applied and inverted three "
+    "UpdateNodeAttrs, UpdateTrackIDs with a fresh id or one in use by an unrelated track - never one "
+    "found downstream) are applied and inverted three "
     "times (pre, post, pre). Canonical state = nodes, edges, every registered node/edge feature and "
     "the special keys, segmentation array; ids/structure/custom values/labels exact, recomputed "
     "floats rtol 1e-9. Non-trivial = an edit that changed the state and touches a division / skip "
